@@ -1,5 +1,7 @@
 import NettyVerif.Proofs.Frame
 import NettyVerif.Proofs.Guards
+import NettyVerif.Props.C01
+import NettyVerif.Props.C02
 /-! # C04 — Frame codecs round-trip or reject; boundaries exact under any fragmentation
 
 Property theorems only. Model: Model/Frame.lean (the codecs of codec/frame/*.go over a chunked
@@ -169,6 +171,63 @@ example : LFEnv { big := true, max := 1024, offset := 2, fieldLen := 2, adj := 0
 
 end Guards
 
+/-! ### End to end: codec ∘ channel ∘ transport wrapper ∘ any fragmentation ∘ decoder
+
+The three models compose through their observable interfaces only: what the encoder emits is what
+the channel accepts (payload type `Bytes`), what the channel hands to the transport is what the
+wrapper is given (`written ops`), what the wrapper passes to the connection is what the peer's decoder
+reads, in whatever chunks. -/
+section EndToEnd
+
+/-- **end to end**: frames accepted by a channel (synchronous or queued, any capacity, any wait mode,
+    any number of writers and any schedule: `acts` is any run of the Chan LTS) whose run has come to
+    rest on a healthy transport, carried by any grouping of Write / Writev calls through any of the
+    transport wrappers found in the current source and flushed, and read by the peer under *any*
+    fragmentation, are decoded to exactly the messages, in acceptance order, each consuming exactly
+    its frame; the loop then ends with the end-of-stream exception.
+    (C02 quiescence ⇒ wire = accepted; C17 ⇒ connection = written; C04 ⇒ decoding is exact.) -/
+theorem C04_end_to_end (c : Codec) (hv : c.valid = true) (fin : RErr) (frames : List (Bytes × Bytes))
+    (hstep : ∀ fm ∈ frames, ∀ (cs : List Bytes) (tl : Bytes), cs.flatten = fm.1 ++ tl →
+        ∃ rest, stepRead true c cs fin = .msg fm.2 rest ∧ rest.flatten = tl)
+    (sync : Bool) (cap : Nat) (untilW : Bool) (acts : List (Chan.Act Bytes)) (s : Chan.St Bytes)
+    (hr : Chan.run (NettyVerif.C02.init sync cap untilW) acts = some s)
+    (hb : s.broken = false) (hq : s.quiescent = true)
+    (hacc : s.accepted = frames.map (·.1))
+    (r : Transport.Route) (hroute : r ∈ Gen.Routing.routes) (size : Nat) (ops : List Transport.Op)
+    (hops : Transport.written ops = s.wire.flatten)
+    (cs : List Bytes) (hflat : cs.flatten = (Transport.run r { size := size } (ops ++ [.flush])).conn) :
+    ∃ rest, readLoop true c (frames.length + 1) cs fin = (frames.map (·.2), some rest) := by
+  have hwire : s.wire = s.accepted := (NettyVerif.C02.C02_quiescent_clean sync cap untilW acts s hr hb hq).2.2.1
+  have hgood : r.good = true := List.all_eq_true.1 NettyVerif.C17.C17_routing_extracted_ok.1 r hroute
+  have hconn := NettyVerif.C17.C17_after_flush r hgood ops size
+  apply C04_stream c hv fin frames cs hstep
+  rw [hflat, hconn, hops, hwire, hacc]
+
+/-- instance: any list of admissible payloads through the varint codec -/
+theorem C04_end_to_end_varint (max : Int) (hmax : max > 0) (fin : RErr) (ps : List Bytes)
+    (hadm : ∀ p ∈ ps, (p.length : Int) ≤ max ∧ p.length < 2^63)
+    (sync : Bool) (cap : Nat) (untilW : Bool) (acts : List (Chan.Act Bytes)) (s : Chan.St Bytes)
+    (hr : Chan.run (NettyVerif.C02.init sync cap untilW) acts = some s)
+    (hb : s.broken = false) (hq : s.quiescent = true)
+    (hacc : s.accepted = ps.map (fun p => putUvarint p.length ++ p))
+    (r : Transport.Route) (hroute : r ∈ Gen.Routing.routes) (size : Nat) (ops : List Transport.Op)
+    (hops : Transport.written ops = s.wire.flatten)
+    (cs : List Bytes) (hflat : cs.flatten = (Transport.run r { size := size } (ops ++ [.flush])).conn) :
+    ∃ rest, readLoop true (.varint max) (ps.length + 1) cs fin = (ps, some rest) := by
+  have hwire : s.wire = s.accepted := (NettyVerif.C02.C02_quiescent_clean sync cap untilW acts s hr hb hq).2.2.1
+  have hgood : r.good = true := List.all_eq_true.1 NettyVerif.C17.C17_routing_extracted_ok.1 r hroute
+  have hconn := NettyVerif.C17.C17_after_flush r hgood ops size
+  apply C04_stream_varint max hmax fin ps cs hadm
+  rw [hflat, hconn, hops, hwire, hacc]
+
+-- premises satisfiable: a queued channel (capacity 2) that accepted one varint frame and came to rest
+example : (Chan.run (NettyVerif.C02.init (α := Bytes) false 2 true)
+      [.beginWrite, .enqueue [2, 1, 7], .casWriter, .exec, .sndRecv, .sndDefault, .sndWritev true, .sndPut, .sndLen1,
+       .sndFlush true, .sndStore, .lingLen 0]).map (fun s => (s.quiescent, s.broken, s.accepted, s.wire)) =
+    some (true, false, [[2, 1, 7]], [[2, 1, 7]]) := by decide
+
+end EndToEnd
+
 end NettyVerif.C04
 
 #print axioms NettyVerif.C04.C04_fragmentation_independent
@@ -185,3 +244,5 @@ end NettyVerif.C04
 #print axioms NettyVerif.C04.C04_guards_pack_field_length
 #print axioms NettyVerif.C04.C04_guards_prepender
 #print axioms NettyVerif.C04.C04_guards_varint_write
+#print axioms NettyVerif.C04.C04_end_to_end
+#print axioms NettyVerif.C04.C04_end_to_end_varint
